@@ -611,7 +611,11 @@ func handleInputStream(s *Session, handler Handler) (err error) {
 		verifhook.Yield("serve.lookup.after")
 		emptySpace := xml.Name{Local: start.Name.Local}
 		if ok && readerChan.stanzaName == start.Name || readerChan.stanzaName == emptySpace {
-			inner := xmlstream.Inner(r)
+			// Like the reader a handler is given, the reader handed to the waiting
+			// call keeps the first error: a stream level construct or a tokenizer
+			// error inside the response ends the session even if the caller
+			// ignores the error or closes the response right after it.
+			inner := &earlyCloser{r: xmlstream.Inner(r), c: rc}
 			verifhook.Yield("serve.offer.before")
 			select {
 			case readerChan.c <- iqResponder{
